@@ -162,3 +162,73 @@ def run_sched(prop, tier, seed, ctx):
     res["coverage"]["rule"] = ("evaluations = schedules executed on the real crate (verif build, token scheduler, stateless DFS, per-scenario "
                                "cap); distinct_nontrivial = distinct observable outcomes over all scenarios; every scenario has >= 2 racing threads")
     return res
+
+
+# ------------------------------------------------------------------------------------------------ interval (C16)
+def ivl_scripts(max_subs, max_len):
+    """all scripts ≤ max_len over ≤ max_subs subscriptions: each subscription starts with its S token, indices appear in order"""
+    out = []
+    def rec(prefix, subs, length):
+        if prefix:
+            out.append(" ".join(prefix))
+        if length == max_len:
+            return
+        for j in range(subs):
+            for t in (f"T{j}", f"T{j}q", f"Q{j}"):
+                rec(prefix + [t], subs, length + 1)
+        if subs < max_subs:
+            for r in "osc":
+                rec(prefix + [f"S{subs}{r}"], subs + 1, length + 1)
+    rec([], 0, 0)
+    return out
+
+
+def run_interval(prop, tier, seed, ctx):
+    import random
+    rnd = random.Random(seed)
+    hb = ctx["harness_bin"]("default")
+    scripts = ivl_scripts(2, 6) if tier == "quick" else ivl_scripts(2, 8) + ivl_scripts(3, 7)
+    # random long scripts, up to 4 subscriptions
+    for _ in range(2000 if tier == "quick" else 100000):
+        subs, toks = 0, []
+        for _ in range(rnd.randint(5, 40)):
+            if subs == 0 or (subs < 4 and rnd.random() < 0.15):
+                toks.append(f"S{subs}{rnd.choice('ooosc')}")
+                subs += 1
+            else:
+                j = rnd.randrange(subs)
+                toks.append(rnd.choice([f"T{j}", f"T{j}", f"T{j}", f"T{j}q", f"Q{j}"]))
+        scripts.append(" ".join(toks))
+    scripts = sorted(set(scripts))
+    n = 16
+    shards = [scripts[i::n] for i in range(n)]
+    def run(sh_lines):
+        if not sh_lines:
+            return ""
+        p = subprocess.run([hb, "interval"], input="\n".join(sh_lines) + "\n", capture_output=True, text=True, timeout=3500)
+        q = subprocess.run([ctx["CBDRV"], "ivl"], input=p.stdout, capture_output=True, text=True, timeout=3500)
+        return p.stdout, q.stdout
+    with ThreadPoolExecutor(max_workers=n) as ex:
+        outs = [o for o in ex.map(run, shards) if o]
+    res = dict(coverage=dict(evaluations=len(scripts), distinct_nontrivial=0, samples=[]), known=[], violations=[], mismatches=[])
+    nontrivial = 0
+    for rec, judged in outs:
+        for l in rec.splitlines():
+            # non-trivial: at least two subscriptions interleaved, or a disposal followed by a later tick
+            toks = l.split("|")[0].split()
+            if len({t[1] for t in toks if t[0] == "S"}) >= 2 or any(t[0] == "Q" or t.endswith("q") for t in toks[:-1]):
+                nontrivial += 1
+        for l in judged.splitlines():
+            if l.startswith("MISMATCH "):
+                res["mismatches"].append(l[9:])
+            elif l.startswith("FLAG "):
+                parts = [p.strip() for p in l[5:].split("|")]
+                res["violations"].append(dict(kind="impl-vs-oracle", instance="interval", script=parts[1], recorded=parts[2], verdict=parts[3],
+                                              replay_cmd=f"echo '{parts[1]}' | harness/target-default/debug/cbharness interval"))
+    res["coverage"]["distinct_nontrivial"] = nontrivial
+    if outs:
+        res["coverage"]["samples"] = [dict(run=l) for l in outs[0][0].splitlines()[-2:]]
+    res["coverage"]["rule"] = ("interval under a mock Nurse+Timer with a virtual clock: every script of subscriptions (spawn ok/Spawn/Closed), timer "
+                               "expiries, disposals at top level and from inside the data handler, up to the tier's length for <= 2 (3) subscriptions, "
+                               "+ seeded random scripts up to 40 events, 4 subscriptions; non-trivial = >= 2 subscriptions or a disposal followed by later events")
+    return res
